@@ -50,9 +50,12 @@ pub fn gen(tier: &str, r: &mut Rng, emit: &mut dyn FnMut(Vec<u64>)) {
     let mut nums: Vec<u64> = (0..=4097).step_by(if thorough { 16 } else { 64 }).collect();
     if thorough { nums.extend(0..300); }
     nums.extend([1, 4095, 4096, 4097, 65535, 65536, 65537, u64::MAX, 1 << 32]);
+    // numbers and sizes that are small again after a narrowing cast or a shift that loses high bits
+    nums.extend([1 << 28, (1 << 28) + 5, 0x3000_0005, (1 << 28) - 1, (1 << 20) + 3, (1 << 32) + 7, (1 << 44) + 1, (15 << 28) + 65535]);
     let mut sizes: Vec<u64> = (0..=8200).collect();
     for k in 0..64u32 { let p = 1u64 << k; sizes.extend([p.wrapping_sub(1), p, p.wrapping_add(1)]); }
     sizes.push(u64::MAX);
+    sizes.extend([(1u64 << 32) + 16, (1u64 << 32) + 1024, (1u64 << 32) + 4095, (1u64 << 33) + 256, (1u64 << 16) + 64, (1u64 << 48) + 512, (3u64 << 32) + 32]);
     for &n in nums.iter() { for &s in sizes.iter() {
         if !thorough && n > 1 && n < 65535 && s > 70 && s % 13 != 0 && (s & (s - 1)) != 0 { continue; }
         emit(vec![2, n, r.below(2), s]);
